@@ -2,17 +2,24 @@
 with FlowParser._parse_block + SheetParser on generated RAW sheets of the model's sub-language:
 send_message rows, begin_for (loop and index variable, `a;b` cells, {@ [] @}, {@ name @} of a
 context list), begin_block, include_if (TRUE / FALSE / {{name}}), row ids and texts made of
-literals and {{name}} references, a context of strings and lists.  Loop variables are drawn from
+literals and {{name}} references, include_if also a comparison {{ name == "word" }} / {{ name != "word" }}, a context of
+strings, lists and ints (the loop index is an int: it renders as its decimal but never equals a word).  Loop variables are drawn from
 a small pool that overlaps the context keys and the variables of enclosing loops, so shadowing
 (by the loop variable, by the index variable, by an inner loop) and loops over nothing are
 ordinary cases.
 
 Compared: the event stream FlowParser acts on (row instantiated / row handed to _parse_row with
-its rendered id and text / _parse_block entered with block type and omit flag / group registered
-under the head's id) and the templating context that is left when the sheet has been read —
-plus the ORACLES the property states, evaluated on the implementation alone:
+its rendered id and text / _parse_block entered with block type and omit flag / NodeGroup pushed /
+group registered under the head's id) and the templating context that is left when the sheet has
+been read; the model's DESUGARING of the sheet (Comp/Desugar.v, wire engine 103 — the function the
+unrolling theorem C03_desugar_equiv is about) against the reference desugaring written here from
+Appendix B (reference_desugar) — plus the ORACLES the property states, evaluated on the
+implementation alone:
   * lexical scope: the context after the sheet is exactly the context before it,
-  * nothing inside an excluded block or a loop over nothing is instantiated."""
+  * nothing inside an excluded block or a loop over nothing is instantiated,
+  * the rows handed on are those of the unrolled, lexically scoped reading,
+  * the theorem's own statement: the desugared sheet is accepted from the EMPTY context and
+    FlowParser is handed the same rows and pushes / registers the same groups in the same order."""
 import csv
 import io
 
@@ -23,7 +30,8 @@ KIND = {"for": (0, "begin_for"), "endfor": (1, "end_for"), "block": (2, "begin_b
         "plain": (4, "send_message")}
 ERR = {1: "unterminated", 2: "wrong-terminator", 3: "no-loop-variable", 4: "KeyError", 5: "undefined", 6: "not-a-list", 7: "FUEL"}
 VARPOOL = ["x", "y", "i", "cx", "cy"]
-CTXPOOL = ["cx", "cy", "l0", "l2", "x", "inc"]
+CTXPOOL = ["cx", "cy", "l0", "l2", "x", "inc", "n7"]
+CMPWORDS = ["a", "b", "c", "p", "CXVAL", "other", "0", "1", "7"]
 
 
 # ------------------------------------------------------------------ sub-language -> wire / cells
@@ -37,7 +45,8 @@ def enc_segs(segs):
 
 def enc_raw(r):
     inc = r["inc"]
-    e_inc = "(0)" if inc == "true" else "(1)" if inc == "false" else f"(2 {enc_str(inc[1])})"
+    e_inc = ("(0)" if inc == "true" else "(1)" if inc == "false" else f"(2 {enc_str(inc[1])})" if inc[0] == "ref"
+             else f"(3 {enc_str(inc[1])} {1 if inc[2] else 0} {enc_str(inc[3])})")
     it = r.get("iter", ("lit", []))
     e_it = f"(0 ({' '.join(enc_str(e) for e in it[1])}))" if it[0] == "lit" else f"(1 {enc_str(it[1])})"
     return (f"({KIND[r['kind']][0]} {e_inc} {enc_segs(r.get('id', []))} {enc_segs(r.get('text', []))} "
@@ -47,7 +56,7 @@ def enc_raw(r):
 def enc_ctx(ctx):
     out = []
     for k, v in ctx.items():
-        ev = f"(1 ({' '.join(enc_str(e) for e in v)}))" if isinstance(v, list) else f"(0 {enc_str(v)})"
+        ev = f"(1 ({' '.join(enc_str(e) for e in v)}))" if isinstance(v, list) else f"(2 {v})" if isinstance(v, int) else f"(0 {enc_str(v)})"
         out.append(f"({enc_str(k)} {ev})")
     return "(" + " ".join(out) + ")"
 
@@ -58,7 +67,8 @@ def sheet_csv(rows, inc_spelling):
     w.writerow(HEADER)
     for i, r in enumerate(rows):
         inc = r["inc"]
-        c_inc = inc_spelling[i] if inc in ("true", "false") else "{{" + inc[1] + "}}"
+        c_inc = (inc_spelling[i] if inc in ("true", "false") else "{{" + inc[1] + "}}" if inc[0] == "ref"
+                 else "{{ %s %s \"%s\" }}" % (inc[1], "==" if inc[2] else "!=", inc[3]))
         it = r.get("iter")
         if r["kind"] == "for":
             main = ";".join(it[1]) if (it[0] == "lit" and it[1]) else "{@ [] @}" if it[0] == "lit" else "{@ " + it[1] + " @}"
@@ -77,6 +87,8 @@ def gen_ctx(rng):
             ctx[k] = [] if k == "l0" and rng.random() < 0.8 else [rng.choice(["p", "q", "r"]) for _ in range(rng.choice([0, 1, 2]))]
         elif k == "inc":
             ctx[k] = rng.choice(["false", "FALSE", " False ", "yes", "TRUE"])
+        elif k == "n7":
+            ctx[k] = 7                     # an int: renders as 7, never equals the word "7"
         else:
             ctx[k] = rng.choice(["CXVAL", "other", "v"])
     return ctx
@@ -104,11 +116,17 @@ def gen_rows(rng, ctx):
 
     def inc(bound):
         r = rng.random()
-        if r < 0.72:
+        if r < 0.66:
             return "true"
-        if r < 0.88:
+        if r < 0.80:
             return "false"
-        return ("ref", rng.choice(["inc"] + [n for n in names(bound) if not isinstance(ctx.get(n), list)][:3]))
+        if r < 0.90:
+            return ("ref", rng.choice(["inc"] + [n for n in names(bound) if not isinstance(ctx.get(n), list)][:3]))
+        # a comparison {{ v == "word" }} / {{ v != "word" }}: mostly of a loop variable in force (so that the row / block is
+        # present in some iterations only), also of an index variable (an int), a context entry (str, list, int), an unknown name
+        pool = [n for n in bound[-2:] * 3 + [n for n in names(bound) if n != "inc"] if n]
+        var = rng.choice(pool) if pool and rng.random() < 0.93 else "ghost"
+        return ("cmp", var, rng.random() < 0.6, rng.choice(CMPWORDS))
 
     def block(depth, bound, n_items):
         for _ in range(n_items):
@@ -163,15 +181,47 @@ def model_run(m, rows, ctx):
             events.append(("row", dec_str(e[1]), dec_str(e[2])))
         elif e[0] == 2:
             events.append(("enter", {0: "root_block", 1: "for", 2: "block"}[e[1]], bool(e[2])))
+        elif e[0] == 4:
+            events.append(("push",))
         else:
             events.append(("end", dec_str(e[1])))
-    final = [(dec_str(k), [dec_str(x) for x in v[1]] if v[0] == 1 else dec_str(v[1])) for k, v in o[2]]
+    final = [(dec_str(k), [dec_str(x) for x in v[1]] if v[0] == 1 else str(v[1]) if v[0] == 2 else dec_str(v[1])) for k, v in o[2]]
     return ("ok", events, final)
 
 
 def model_policies(m):
     o = parse_sexp(m.ask("(8 0)"))
     return dict(scope="restore" if o[0] == 1 else "pop", empty="skip" if o[1] == 1 else "fall-through", tolerant=bool(o[2]))
+
+
+KIND_OF = {0: "for", 1: "endfor", 2: "block", 3: "endblock", 4: "plain"}
+
+
+def model_desugar(m, rows, ctx):
+    """Comp/Desugar.v: desugar (wire engine 103) -> ('ok', [(kind, id, text)]) | ('err', class) | ('notliteral', row) | None"""
+    o = parse_sexp(m.ask(f"(103 1 0 ({' '.join(enc_raw(r) for r in rows)}) {enc_ctx(ctx)})"))
+    if o in ([999998], [999997]):
+        return None
+    if o[0] == 1:
+        return ("err", ERR.get(o[1], str(o[1])))
+    out = []
+    for r in o[1]:
+        kind, inc, rid, text, vs, _it = r
+        if inc != [0] or vs != [] or kind not in (2, 3, 4) or any(sg[0] != 0 for sg in rid + text):
+            return ("notliteral", r)
+        out.append((KIND_OF[kind], "".join(dec_str(sg[1]) for sg in rid), "".join(dec_str(sg[1]) for sg in text)))
+    return ("ok", out)
+
+
+def desugared_csv(des):
+    rows = [dict(kind=k, inc="true", id=[("lit", i)] if i else [], text=[("lit", t)] if t else []) for k, i, t in des]
+    return sheet_csv(rows, [""] * len(rows))
+
+
+def toks(events):
+    """what FlowParser builds from: rows handed to _parse_row, NodeGroups pushed, groups popped and registered under an id"""
+    return [("row", e[1], e[2]) if e[0] == "row" else ("push",) if e[0] == "push" else ("pop", e[1])
+            for e in events if e[0] in ("row", "push", "end")]
 
 
 class Spy:
@@ -220,6 +270,18 @@ class Spy:
         return False
 
 
+class _GroupStack(list):
+    """FlowParser.node_group_stack, observed: a push of a new NodeGroup (begin_for / begin_block that is not skipped)"""
+
+    def __init__(self, items, events):
+        super().__init__(items)
+        self._events = events
+
+    def append(self, x):
+        self._events.append(("push",))
+        super().append(x)
+
+
 def impl_run(csvtext, ctx):
     import tablib
     from rpft.parsers.creation.flowparser import FlowParser
@@ -230,10 +292,12 @@ def impl_run(csvtext, ctx):
     def go():
         fp = FlowParser(RapidProContainer(), "f", tablib.import_set(csvtext, format="csv"), context=dict(ctx))
         box["fp"] = fp
+        fp.node_group_stack = _GroupStack(fp.node_group_stack, box["spy"].events)
         fp._parse_block()
         return fp
 
     with Spy() as spy:
+        box["spy"] = spy
         r = run_cli_mode(go)
     fp = box.get("fp")
     final = None
@@ -302,11 +366,12 @@ class _RefError(Exception):
     pass
 
 
-def reference_rows(rows, cx):
-    """What the property says a (well nested) sugared sheet means: the rows handed on, in order,
-    when every loop is replaced by its body once per element with the loop and index variable
-    substituted (LEXICAL scope: an environment per iteration, the outer one untouched) and
-    excluded rows/blocks are dropped unevaluated.  -> ('ok', [(id, text)]) | ('err', why)"""
+def reference_desugar(rows, cx):
+    """What the property says a (well nested) sugared sheet means — its DESUGARED form: every loop
+    replaced by a block (same rendered row id) holding its body once per element, in order, with
+    the loop and index variable substituted (LEXICAL scope: an environment per iteration, the outer
+    one untouched); rows and blocks whose include_if is false dropped unevaluated; every cell
+    rendered.  -> ('ok', [(kind, id, text)]) with kind in plain/block/endblock | ('err', why)"""
     out = []
 
     def render(segs, env):
@@ -317,7 +382,7 @@ def reference_rows(rows, cx):
             elif sg not in env:
                 raise _RefError("undefined")
             else:
-                parts.append(",".join(env[sg]) if isinstance(env[sg], list) else env[sg])
+                parts.append(",".join(env[sg]) if isinstance(env[sg], list) else str(env[sg]))
         return "".join(parts)
 
     def included(r, env):
@@ -327,7 +392,10 @@ def reference_rows(rows, cx):
         if inc[1] not in env:
             raise _RefError("undefined")
         val = env[inc[1]]
-        return (",".join(val) if isinstance(val, list) else val).strip().lower() != "false"
+        if inc[0] == "cmp":                      # Python's ==: a str equals a str; a list or an int (the index) never does
+            same = isinstance(val, str) and val == inc[3]
+            return same if inc[2] else not same
+        return (",".join(val) if isinstance(val, list) else str(val)).strip().lower() != "false"
 
     def matching_end(i):
         depth, j = 1, i + 1
@@ -343,13 +411,14 @@ def reference_rows(rows, cx):
             r = rows[i]
             if r["kind"] == "plain":
                 if included(r, env):
-                    out.append((render(r.get("id", []), env), render(r.get("text", []), env)))
+                    out.append(("plain", render(r.get("id", []), env), render(r.get("text", []), env)))
                 i += 1
                 continue
             end = matching_end(i)
             if included(r, env):
-                render(r.get("id", []), env)
+                head = ("block", render(r.get("id", []), env), render(r.get("text", []), env))
                 if r["kind"] == "block":
+                    out.append(head)
                     body(i + 1, end, env)
                 else:
                     it = r["iter"]
@@ -358,16 +427,18 @@ def reference_rows(rows, cx):
                     elif it[1] not in env:
                         raise _RefError("undefined")
                     else:
-                        elems = list(env[it[1]]) if isinstance(env[it[1]], list) else [env[it[1]]]
+                        elems = list(env[it[1]]) if isinstance(env[it[1]], list) else [str(env[it[1]])]
                     vs = r.get("vars", [])
                     if not vs or not vs[0]:
                         raise _RefError("no-loop-variable")
+                    out.append(head)
                     for n, e in enumerate(elems):
                         env2 = dict(env)
                         env2[vs[0]] = e
                         if len(vs) > 1 and vs[1]:
-                            env2[vs[1]] = str(n)
+                            env2[vs[1]] = n            # an int
                         body(i + 1, end, env2)
+                out.append(("endblock", "", ""))      # (generated terminators carry no template)
             i = end + 1
 
     try:
@@ -375,6 +446,12 @@ def reference_rows(rows, cx):
     except _RefError as e:
         return ("err", str(e))
     return ("ok", out)
+
+
+def reference_rows(rows, cx):
+    """the rows handed on, in order, under the unrolled lexically scoped reading -> ('ok', [(id, text)]) | ('err', why)"""
+    r = reference_desugar(rows, cx)
+    return ("ok", [(i, t) for k, i, t in r[1] if k == "plain"]) if r[0] == "ok" else r
 
 
 def well_nested(rows):
@@ -413,6 +490,21 @@ DIRECTED = [
                        P([L_("bye:"), R_("cx")])]),
     ({}, [P([L_("hi")], rid="1"), FOR(["x"], ("lit", ["a", "b"])), FOR(["y"], ("lit", [])), P([R_("y")]), ENDFOR, P([L_("in:"), R_("x")]), ENDFOR,
           P([L_("bye")])]),
+    # comparison cells: a block present in the SECOND copy of the body only, inside it rows whose own include_if is false there
+    # (first met while the block is skipped, then read normally); the index is an int and never equals the word "0"
+    ({"inc": "false"}, [P([L_("hi")], rid="1"), FOR(["x", "i"], ("lit", ["a", "b"]), "2"),
+                        dict(kind="block", inc=("cmp", "x", True, "b"), id=[]),
+                        P([L_("in:"), R_("x")], inc=("cmp", "x", False, "b")), P([L_("also:"), R_("x")], inc=("ref", "inc")),
+                        P([L_("kept:"), R_("x")], inc=("cmp", "x", False, "a")),
+                        dict(kind="endblock", inc="true"),
+                        P([L_("idx:"), R_("i")], inc=("cmp", "i", True, "0")), P([L_("idx-ne:"), R_("i")], inc=("cmp", "i", False, "0")),
+                        ENDFOR, P([L_("bye")])]),
+    # ... the same with an inner loop as the conditional part, and a list / an unknown name compared
+    ({"l2": ["p"]}, [P([L_("hi")], rid="1"), FOR(["x"], ("lit", ["a", "b", "a"]), "2"),
+                     dict(kind="for", inc=("cmp", "x", False, "a"), id=[], vars=["y"], iter=("lit", ["p", "q"])),
+                     P([L_("y:"), R_("y")], inc=("cmp", "y", True, "q")), ENDFOR,
+                     P([L_("list:"), R_("x")], inc=("cmp", "l2", True, "p")), ENDFOR, P([L_("bye")])]),
+    ({}, [P([L_("hi")], rid="1"), P([L_("never")], inc=("cmp", "ghost", False, "a"))]),
 ]
 
 
@@ -462,6 +554,17 @@ def oracles(ir, before, never, empty, ref=None):
     return out
 
 
+def desugared_oracle(ir, ir2):
+    """ir = the implementation on the sugared sheet (accepted), ir2 = on its desugared form -> list of summaries"""
+    if ir2[0] != "ok":
+        return [f"the sheet is accepted but its desugared form (loops unrolled into blocks, excluded content removed) is rejected ({ir2[1]})"]
+    if toks(ir2[1]) != toks(ir[1]):
+        return [f"FlowParser is handed {toks(ir[1])!r} for the sheet but {toks(ir2[1])!r} for its desugared form"]
+    if ir2[2]:
+        return [f"the desugared sheet leaves {ir2[2]!r} in the empty templating context"]
+    return []
+
+
 def judge(ctx, rows, cx, spell, dist, nontrivial):
     v, m = ctx.v, ctx.model
     csvtext = sheet_csv(rows, spell)
@@ -470,6 +573,7 @@ def judge(ctx, rows, cx, spell, dist, nontrivial):
     shadow, empty = sheet_classes(rows, cx)
     dist["with_shadowing"] += shadow
     dist["with_empty_loop"] += empty
+    dist["with_comparison_cell"] += any(isinstance(r["inc"], tuple) and r["inc"][0] == "cmp" for r in rows)
     key = "empty-loop" if empty else "loop-variable-shadows-outer-variable" if shadow else "loop-mechanics"
     never = sorted(unevaluated_positions(rows)) if well_nested(rows) else []
     dist["with_excluded_block"] += bool(never)
@@ -477,17 +581,38 @@ def judge(ctx, rows, cx, spell, dist, nontrivial):
     ref = reference_rows(rows, cx) if well_nested(rows) else None
     dist["reference_reading_ok"] += bool(ref and ref[0] == "ok")
     rep = dict(fn="blocks", csv=csvtext, ctx=cx, never=never, empty=empty, ref=ref)
+    failed = False
     for summary in oracles(ir, str_ctx(cx), never, empty, ref)[:1]:
         v.failing_input(key, summary, rep)
+        failed = True
+    # ---- the unrolling theorem's statement, on the implementation: the desugared sheet (reference desugaring; it is
+    # compared with the model's below) is accepted from the EMPTY context and FlowParser is handed the same rows and
+    # pushes / registers the same groups in the same order
+    rd = reference_desugar(rows, cx) if well_nested(rows) else None
+    if rd and rd[0] == "ok" and ir[0] == "ok" and not failed and dist["desugared_compiled"] < dist["desugared_budget"]:
+        dist["desugared_compiled"] += 1
+        des_csv = desugared_csv(rd[1])
+        for summary in desugared_oracle(ir, impl_run(des_csv, {}))[:1]:
+            v.failing_input(key, summary, dict(rep, des_csv=des_csv))
     # ---- correspondence
     if not m:
         return
+    md = model_desugar(m, rows, cx)
+    if md is None or md[0] == "notliteral":
+        ctx.disagree("blocks: desugar (model) did not deliver a literal sheet", rep, repr(md), "")
+    elif rd is not None:
+        dist["desugar_vs_reference"] += 1
+        if md != rd:
+            ctx.disagree("blocks: desugar (Comp/Desugar.v) differs from the reference desugaring", rep, repr(md), repr(rd))
     mo = model_run(m, rows, cx)
     if mo is None:
         ctx.disagree("blocks: model rejected the sheet", rep, "BADINPUT", "")
         return
     if mo[0] == "err" and mo[1] == "FUEL":
         return
+    if md is not None and md[0] != "notliteral" and ((md[0] == "ok") != (mo[0] == "ok") or (md[0] == "err" and tuple(md) != tuple(mo[:2]))):
+        # C03_desugar_defined_iff_sheet_accepted / C03_desugar_fails_iff_sheet_fails, on the extracted code
+        ctx.disagree("blocks: desugar defined/failing differently from the model's own reading of the sheet", rep, repr(md), repr(mo[:2]))
     if ir[0] == "err" and ir[1] == "graph":
         dist["graph_error_outside_model"] += 1
         return
@@ -513,7 +638,8 @@ def run(ctx, n):
     """the directed cases, then n generated sheets; returns the set of non-trivial cases"""
     rng = ctx.rng
     dist = {"ok": 0, "err": 0, "graph_error_outside_model": 0, "with_shadowing": 0, "with_empty_loop": 0, "with_excluded_block": 0,
-            "scope_oracle_checked": 0, "reference_reading_ok": 0}
+            "with_comparison_cell": 0, "scope_oracle_checked": 0, "reference_reading_ok": 0, "desugar_vs_reference": 0, "desugared_compiled": 0,
+            "desugared_budget": max(60, n * 2 // 5)}
     nontrivial = set()
     if ctx.model:
         ctx.stats["loop_mechanics_of_the_code"] = model_policies(ctx.model)
@@ -531,4 +657,8 @@ def run(ctx, n):
 def replay(r):
     """True when the property's statements hold on this input"""
     ir = impl_run(r["csv"], r["ctx"])
-    return not oracles(ir, str_ctx(r["ctx"]), r.get("never", []), r.get("empty", False), r.get("ref"))
+    if oracles(ir, str_ctx(r["ctx"]), r.get("never", []), r.get("empty", False), r.get("ref")):
+        return False
+    if r.get("des_csv") and ir[0] == "ok":
+        return not desugared_oracle(ir, impl_run(r["des_csv"], {}))
+    return True
